@@ -466,6 +466,35 @@ def hierarchy_rule(rep):
                sx_str(sp) if sp else sx_str(pi), sx_str(sc) if sc else sx_str(ci)), "src/xercesc/dom/impl/DOMDocumentImpl.cpp")
 
 
+def supplementary_names_rule(rep):
+    rep.rule("C13.f", "the DOM's name checks accept what the parser accepts: the parser's name scanner (XMLReader::getName / getNCName) "
+             "takes the surrogate pairs of U+10000..U+EFFFF (lead D800..DB7F) as name characters for both XML versions; "
+             "DOMDocumentImpl::isXMLName / isValidQName delegate to XMLChar1_0 / XMLChar1_1 ::isValidName, isValidNCName, "
+             "isValidNmtoken, isValidQName, each of which must therefore test the lead-surrogate range (a comparison with 0xDB7F) "
+             "or delegate to one that does — otherwise createElement / createProcessingInstruction throw INVALID_CHARACTER_ERR for "
+             "names the parser produced, and a DOM build of a well-formed document fails where SAX succeeds")
+    tu = os.path.join(core.REPO, "src/xercesc/util/XMLChar.cpp")
+    g = core.run_xa([tu], st=r"^XMLChar1_[01]::isValid(Name|NCName|Nmtoken|QName)$", flat=False)
+    handles = {}
+    calls = {}
+    for q, sts in g.sts.items():
+        for st in sts:
+            key = q
+            has = any(isinstance(x, list) and len(x) == 2 and x[0] == "i" and x[1] == 0xDB7F for x in sx_walk(st["body"]))
+            handles[key] = handles.get(key, True) and has if key in handles else has
+            for x in sx_walk(st["body"]):
+                if isinstance(x, list) and x and x[0] == "c" and x[1] in g.sts and x[1] != q:
+                    calls.setdefault(key, set()).add(x[1])
+    if len(handles) < 8:
+        raise AnalysisBroken("XMLChar name validators not found (%d)" % len(handles))
+    for q in sorted(handles):
+        ok = handles[q] or any(handles.get(c) for c in calls.get(q, ()))
+        rep.ob("C13.f", q, ok, "tests the lead-surrogate range D800..DB7F" + ("" if handles[q] else " through " + ", ".join(sorted(calls.get(q, ())))) if ok else
+               "%s looks every UTF-16 code unit up in the BMP table and never pairs surrogates: a name containing a character of "
+               "U+10000..U+EFFFF, which the parser accepts, is rejected by the DOM (createElement, createProcessingInstruction, "
+               "setPrefix ...) and by a DOM build of a well-formed document" % q, "src/xercesc/util/XMLChar.cpp")
+
+
 def run(rep):
     f = core.library_facts()
     rep.units.update(os.path.relpath(t, core.REPO) for t in f.tus)
@@ -473,6 +502,7 @@ def run(rep):
     guards_rule(rep, f)
     validate_before_mutate(rep, f)
     hierarchy_rule(rep)
+    supplementary_names_rule(rep)
     from ..engines import arrays
     arrays.soh_rule(rep, f, "C13.d", lambda fn: "/dom/impl/" in fn["file"])
     diag.run(rep, f, "C13")
